@@ -13,6 +13,7 @@ import (
 	_ "pdverif/internal/idalloc"
 	_ "pdverif/internal/placementh"
 	_ "pdverif/internal/regionh"
+	_ "pdverif/internal/replh"
 	_ "pdverif/internal/storageh"
 	_ "pdverif/internal/syncerh"
 	_ "pdverif/internal/tsoh"
